@@ -60,7 +60,7 @@ Proof. exact occ_steps. Qed.
 (** The static part of the guard is not vacuous for real signatures: contexts
     built from well-formed task signatures (C09's guard + no required
     positional + plain list defaults) satisfy [ctx_guard]. *)
-Theorem C01_wf_ctxs_of_wf_sigs : forall ts,
+Theorem C01_wf_ctxs_of_wf_sigs_partial : forall ts,
   forallb task_ok ts = true ->
   exists cs, ctxs_of_tasks ts = Ok cs /\
              map cx_name cs = map (fun t => Some (t_name t)) ts /\
